@@ -150,3 +150,20 @@ contract('gnpy.core.info.muxed_spectral_information', name='gnpy.core.info.muxed
          ensures=[('the_band_itself', 'result is input_si_list[0]')], modifies=[], use_at_calls=False)
 contract('gnpy.core.info.muxed_spectral_information', name='gnpy.core.info.muxed_spectral_information[no band]', props=['C01', 'C07'],
          params={'input_si_list': lst()}, raises={'ValueError': 'True'}, ensures=[], modifies=[], use_at_calls=False)
+
+# a user-defined spectrum {frequency: carrier}: every channel of the launched spectrum carries the figures of the carrier
+# declared at its frequency (the dict is given in descending frequency order: the constructor re-orders by frequency)
+CARRIER = lambda: obj('Carrier', delta_pdb=real(), baud_rate=real(), slot_width=real(), roll_off=real(), tx_osnr=real(),
+                      tx_power=real(), label=string())
+contract('gnpy.core.info.carriers_to_spectral_information', name='gnpy.core.info.carriers_to_spectral_information[two carriers, descending order]',
+         props=['C07', 'C03'],
+         params={'initial_spectrum': dct_k({193.4e12: CARRIER(), 193.1e12: CARRIER()}), 'power': real()},
+         raises={'SpectrumError': None},
+         let={'hi': 'initial_spectrum[193.4e12]', 'lo': 'initial_spectrum[193.1e12]'},
+         ensures=[('two_channels_by_ascending_frequency', 'result._number_of_channels == 2 and result._frequency[0] == 193.1e12 and '
+                                                          'result._frequency[1] == 193.4e12'),
+                  ('each_channel_has_the_figures_of_its_own_carrier',
+                   ' and '.join(f'result._{a}[0] == lo.{b} and result._{a}[1] == hi.{b}' for a, b in
+                                (('baud_rate', 'baud_rate'), ('slot_width', 'slot_width'), ('roll_off', 'roll_off'), ('tx_osnr', 'tx_osnr'),
+                                 ('tx_power', 'tx_power'), ('pch', 'tx_power'), ('delta_pdb_per_channel', 'delta_pdb'), ('label', 'label'))))],
+         modifies=[], use_at_calls=False)
